@@ -199,7 +199,9 @@ def run_case(c, stats):
     call(fa.copy)
     if c.get("edits"):
         # the automaton is edited through the public mutators and queried again (same object)
-        gfa.apply_edits(fa, c)
+        gfa.apply_edits(fa, c, on_refused=lambda e, exc: core.report(
+            PROP, "edit", "refused-edit-changed-automaton", {"edit": list(e), "exception": type(exc).__name__},
+            ["kind:" + c["kind"]]))
         stats.cls("edited")
         for w in words[:40]:
             call(fa.accepts, w)
